@@ -334,3 +334,68 @@ func blockReaches(b *ssa.BasicBlock, to ssa.Instruction) bool {
 	}
 	return false
 }
+
+func init() {
+	register(&Rule{
+		ID: "C14-f", Template: "T2 never-follows (the record goes last)",
+		Doc: "A discard that was interrupted can be run again: in transaction.Discard (and the helpers it calls) no deletion of staged refs (ref.DeleteTransactionRefs) is reachable after the transaction's own record was deleted (ref.Store.DeleteTransaction). With the record gone first, a failure while the staged refs are removed leaves txs/<id>/* behind for good: Discard answers 'no such transaction' from then on and garbage collection, which starts from the records, never finds them.",
+		Min: 1,
+		Run: func(p *Program, r *RuleResult) error {
+			fn, err := p.SSAFunc("pkg/transaction.Discard")
+			if err != nil {
+				return err
+			}
+			refDel, err := p.MustFuncs("pkg/ref.DeleteTransactionRefs")
+			if err != nil {
+				return err
+			}
+			rowDel, err := ifaceMethods(p, "pkg/ref.Store", "DeleteTransaction")
+			if err != nil {
+				return err
+			}
+			r.Analysed = 1
+			rows := effSites(p, fn, rowDel, inlineDepth)
+			refs := effSites(p, fn, refDel, inlineDepth)
+			if len(rows) == 0 {
+				r.missing(funcName(fn)+"|record", "transaction.Discard does not delete the transaction record")
+				return nil
+			}
+			if len(refs) == 0 {
+				r.bad(funcName(fn)+"|staged-refs", p.Rel(fn.Pos()), "Discard removes the staged refs", "ref.DeleteTransactionRefs is not reached from transaction.Discard")
+				return nil
+			}
+			for _, a := range rows {
+				key := effKey(fn, a) + "|last"
+				what := "the transaction record is deleted after the staged refs"
+				bad := ""
+				for _, b := range refs {
+					if a.site == b.site {
+						// both inside one helper: look inside it
+						continue
+					}
+					if path, reach := reachAfter(fn, a.site, b.site, nil, nil); reach {
+						bad = fmtPath("staged refs are deleted ("+p.Rel(b.inner.Pos())+") after the record was deleted ("+p.Rel(a.inner.Pos())+")", path)
+					}
+				}
+				// the same inside helpers that contain both
+				for _, h := range a.via {
+					hr := effSites(p, h, rowDel, 0)
+					hf := effSites(p, h, refDel, 0)
+					for _, x := range hr {
+						for _, y := range hf {
+							if path, reach := reachAfter(h, x.site, y.site, nil, nil); reach {
+								bad = fmtPath("in "+funcName(h)+" staged refs are deleted after the record was deleted", path)
+							}
+						}
+					}
+				}
+				if bad != "" {
+					r.bad(key, p.Rel(a.site.Pos()), what, bad)
+				} else {
+					r.ok(key, p.Rel(a.site.Pos()), what)
+				}
+			}
+			return nil
+		},
+	})
+}
